@@ -1,3 +1,4 @@
+import RsyncModel.PeerInput
 import RsyncModel.Gen.ConnUse
 import RsyncModel.PureTie
 import RsyncModel.MuxThm
@@ -75,5 +76,17 @@ theorem wire_reads_through_readfull :
     Gen.ConnUse.wireReads = ["CountingReader.Read: r.R.Read", "Conn.ReadByte: io.ReadFull", "Conn.ReadInt32: io.ReadFull",
       "Conn.ReadInt64: c.ReadInt32", "Conn.ReadInt64: binary.Read", "MultiplexReader.ReadMsg: binary.Read",
       "MultiplexReader.ReadMsg: io.ReadFull"] := by decide
+
+
+/-- **`ReadMsg` as the source has it reads exactly the model's first frame** (translated from /repo
+on every run): same tag, same payload, same unread rest as `Mux.parse` finds; an error exactly when
+the input is short or the declared length exceeds the limit -/
+theorem source_read_msg (inp : Bytes) :
+    Gen.Pure.ReadMsg inp =
+      if inp.length < 4 then .err
+      else if lenOf inp > maxMsg then .err
+      else if (inp.drop 4).length < lenOf inp then .err
+      else .ok (tagOf inp, (inp.drop 4).take (lenOf inp), (inp.drop 4).drop (lenOf inp)) :=
+  PeerInput.readMsg_tied inp
 
 end C17
